@@ -275,3 +275,98 @@ def gen_graph(rng, max_nodes=7):
     b = [[i, Fr(rng.randint(0, 4), 4)] for i in range(n) if rng.random() < 0.6]
     names = state_names(rng, n, ["a"], rng.choice(["int", "str", "tuple"]))
     return {"n": n, "names": names, "edges": sc, "b": b}
+
+
+# ---------------------------------------------------------------------------
+# scale: automata beyond the exhaustive bounds
+def gen_big_wfsa(rng, acyclic=False, peps=0.15, alphabet=None):
+    """8-14 states (two-digit indices), 6-10 symbols, about two arcs per state, three or more initial and final
+    states; per-state outgoing weight <= 1/2 so every closure exists."""
+    n = rng.randint(8, 14)
+    if alphabet is None:
+        alphabet = [chr(97 + i) for i in range(rng.randint(6, 10))]
+    arcs = []
+    for i in range(n):
+        for _ in range(rng.randint(1, 3)):
+            j = rng.randrange(n)
+            if acyclic:
+                if i == n - 1:
+                    continue
+                j = rng.randrange(i + 1, n)
+            a = EPS if rng.random() < peps else rng.choice(alphabet)
+            arcs.append([i, a, j, rng.randint(1, 6)])
+    i = rng.randrange(n)  # one state with many outgoing arcs
+    for _ in range(rng.randint(6, 9)):
+        j = rng.randrange(n)
+        if acyclic:
+            if i >= n - 1:
+                break
+            j = rng.randrange(i + 1, n)
+        arcs.append([i, rng.choice(alphabet), j, rng.randint(1, 6)])
+    out = {}
+    for i, a, j, w in arcs:
+        out[i] = out.get(i, 0) + w
+    scaled = []
+    for i, a, j, w in arcs:
+        k = 1
+        while k < 2 * out[i]:
+            k *= 2
+        scaled.append([i, a, j, Fr(w, k)])
+    start = {rng.randrange(n if not acyclic else max(1, n // 2)): Fr(rng.randint(1, 4), 4) for _ in range(rng.randint(3, 4))}
+    stop = {rng.randrange(n): Fr(rng.randint(1, 4), 4) for _ in range(rng.randint(3, 5))}
+    return {"n": n, "names": state_names(rng, n, alphabet, rng.choice(["int", "int1", "str", "tuple", "sparse"])), "alphabet": list(alphabet),
+            "start": sorted([i, w] for i, w in start.items()), "stop": sorted([i, w] for i, w in stop.items()), "arcs": scaled, "big": True}
+
+
+def walk_strings(m, rng, k=12, max_len=12):
+    "label sequences of random accepting walks (members of the support), independent of the library"
+    out_arcs = {}
+    for i, a, j, w in m["arcs"]:
+        if w != 0:
+            out_arcs.setdefault(i, []).append((a, j))
+    stops = {i for i, w in m["stop"] if w != 0}
+    res = set()
+    for _ in range(40 * k):
+        if len(res) >= k or not m["start"]:
+            break
+        q = rng.choice(m["start"])[0]
+        x = []
+        for _ in range(3 * max_len):
+            if q in stops and rng.random() < 0.3:
+                break
+            if q not in out_arcs:
+                break
+            a, q = rng.choice(out_arcs[q])
+            if a != EPS:
+                x.append(a)
+            if len(x) > max_len:
+                break
+        if q in stops and len(x) <= max_len:
+            res.add(tuple(x))
+    return sorted(res, key=repr)
+
+
+def case_strings(m, maxlen, seed, cap=400, k=12, max_len=12):
+    """Every string up to maxlen for a small automaton; for a big one every string up to the largest length that keeps
+    the total under `cap`, plus labels of random accepting walks and one-edit perturbations of them."""
+    import itertools
+    import random as _random
+
+    from rv.gen import grammars as GG
+
+    V = sorted(m["alphabet"], key=repr)
+    if not m.get("big"):
+        return list(GG.strings_upto(V, maxlen))
+    out, total, L = [()], 1, 1
+    while L <= maxlen and total + len(V) ** L <= cap:
+        out.extend(itertools.product(V, repeat=L))
+        total += len(V) ** L
+        L += 1
+    rng = _random.Random(seed)
+    seen = set(out)
+    for x in walk_strings(m, rng, k=k, max_len=max_len):
+        for y in (x, GG.perturb(x, V, rng)):
+            if y not in seen:
+                seen.add(y)
+                out.append(y)
+    return out
